@@ -526,7 +526,43 @@ def parse_mir(text):
             b.blocks[0] = ([('assign', Place(0, ()), Rv('use', Op('const', const=m.group(3))))], ('return',))
             bodies.setdefault(b.name, b)
         i += 1
+    fix_closure_captures(bodies, text)
     return bodies
+
+
+def fix_closure_captures(bodies, text):
+    """rustc's pretty printer names closure operands by upvar *variable* and drops operands when several captured places
+    share a variable (disjoint captures `self.a`, `self.b`): `{closure} { self: copy _106 }` although two places are
+    captured.  The closure body says how many captures there are (highest `_1.N` / `(*_1).N` it projects); the capture
+    temporaries are assigned, in capture order, by the statements immediately before the aggregate."""
+    ncap = {}
+    for name, b in bodies.items():
+        if '{closure#' not in name or not b.arg_types:
+            continue
+        m = re.search(r'\{closure@[^}]*\}', b.arg_types[0])
+        if not m:
+            continue
+        key = m.group(0)
+        # body text
+        start = text.find('fn ' + name + '(')
+        if start < 0:
+            continue
+        end = text.find('\n}\n', start)
+        chunk = text[start:end]
+        idx = [int(x) for x in re.findall(r'\(\*_1\)\.(\d+): |\(_1\.(\d+): ', chunk) for x in x if x != '']
+        ncap[key] = (max(idx) + 1) if idx else 0
+    for b in bodies.values():
+        for bid, (stmts, term) in b.blocks.items():
+            for k, st in enumerate(stmts):
+                if st[0] != 'assign' or st[2].kind != 'closure':
+                    continue
+                rv = st[2]
+                want = ncap.get(rv.a)
+                if want is None or want <= len(rv.b):
+                    continue
+                prev = stmts[max(0, k - want):k]
+                if len(prev) == want and all(p[0] == 'assign' and not p[1].proj for p in prev):
+                    rv.b = [(f'capture{q}', Op('move', Place(p[1].local, ()))) for q, p in enumerate(prev)]
 
 
 def parse_body(lines, i, b):
@@ -577,33 +613,6 @@ def parse_body(lines, i, b):
                 ps = [parse_stmt(s) for s in stmts]
             except Exception as e:
                 raise ValueError(f'{b.name} bb{cur}: {e}\n  {term_txt}\n  ' + '\n  '.join(stmts))
-            # rustc's pretty printer collapses closure upvars that share a name (disjoint captures of `self.a`, `self.b`
-            # both print as `self`): recover the dropped operands from the capture temporaries assigned just before.
-            for k, st in enumerate(ps):
-                if st[0] == 'assign' and st[2].kind == 'closure' and st[2].b:
-                    temps = []
-                    j = k - 1
-                    while j >= 0 and re.match(r'^_(\d+) = no_retag copy ', stmts[j]):
-                        temps.insert(0, int(re.match(r'^_(\d+)', stmts[j]).group(1)))
-                        j -= 1
-                    # a temporary that only feeds a later temporary (`_23 = copy ((*_22).3)`) is not a capture itself
-                    temps = [t for t in temps if not any(re.search(r'_%d\b' % t, stmts[q].split(' = ', 1)[1])
-                                                         for q in range(j + 1, k) if ' = ' in stmts[q])]
-                    shown = [o.place.local for _, o in st[2].b if o.place is not None and not o.place.proj]
-                    names = [nm for nm, _ in st[2].b]
-                    missing = [t for t in temps if t not in shown]
-                    if missing and len(set(names)) <= len(names):
-                        # rebuild in capture order: temps appear in order of capture index
-                        first_shown = {t: nm for (nm, o), t in zip(st[2].b, shown)} if len(shown) == len(st[2].b) else {}
-                        if first_shown and all(t in temps for t in shown):
-                            # operands that are not capture temps keep their relative position: only handle the pure case
-                            newb = []
-                            lastname = None
-                            for t in temps:
-                                nm = first_shown.get(t, lastname)
-                                lastname = nm
-                                newb.append((nm, Op('copy', Place(t, ()))))
-                            st[2].b = newb
             b.blocks[cur] = (ps, term)
             i += 1
             continue
